@@ -265,6 +265,12 @@ impl<'a> Eval<'a> {
     }
 
     pub fn c03(&self, ci: usize, v: &mut Vec<Violation>) -> bool {
+        self.c03_cached(ci, v, &mut None)
+    }
+
+    /// `seen`: segments (by bit pattern, with the setup they belong to) already judged in this
+    /// scenario — long multi-solve histories return the same tree edges over and over.
+    pub fn c03_cached(&self, ci: usize, v: &mut Vec<Violation>, seen: &mut Option<std::collections::HashSet<(usize, Vec<u64>, Vec<u64>)>>) -> bool {
         let Res::Path(p) = &self.out.calls[ci].res else { return false };
         let Some((_, setup_ev)) = self.problem_at(ci) else { return false };
         let Some(w) = self.checker_at(ci) else { return false };
@@ -277,6 +283,12 @@ impl<'a> Eval<'a> {
         for i in 0..p.len() - 1 {
             if g.d(&p[i], &p[i + 1]) > g.lvs_ref() {
                 long_segments += 1;
+            }
+            if let Some(seen) = seen.as_mut() {
+                let key = (setup_ev, p[i].iter().map(|x| x.to_bits()).collect::<Vec<u64>>(), p[i + 1].iter().map(|x| x.to_bits()).collect::<Vec<u64>>());
+                if !seen.insert(key) {
+                    continue;
+                }
             }
             if let Some((gap, at)) = self.coverage_gap_g(g, &acc, &p[i], &p[i + 1]) {
                 v.push(viol(
